@@ -33,6 +33,7 @@ vcheck = importlib.util.module_from_spec(spec)
 loader.exec_module(vcheck)
 
 SCRATCH = os.environ.get("MUT_SCRATCH", "/root/scratch/mut")
+OPS = None
 REPO = "/repo"
 
 # which properties' runs look at which file (the anchors of properties.jsonl, narrowed to the cheap runs first)
@@ -57,6 +58,26 @@ MUTATIONS = [
     (r"!(?=[a-zA-Z_(])", ""),
     (r"\bdepth \+ 1\b", "depth"), (r"\bown_depth\b", "0"), (r"\bdepth\b", "(depth + 1)"),
 ]
+
+
+# second operator set (`--ops extra`): identifier swaps between sibling functions / fields, and statement deletion
+MUTATIONS_EXTRA = [
+    (r"\bbeta_cbn\(", "beta_nor("), (r"\bbeta_nor\(", "beta_cbn("), (r"\bbeta_nor\(", "beta_hno("), (r"\bbeta_cbv\(", "beta_app("),
+    (r"\bbeta_app\(", "beta_cbv("), (r"\bbeta_app\(", "beta_hap("), (r"\bbeta_hsp\(", "beta_hno("), (r"\bbeta_hsp\(", "beta_cbn("),
+    (r"\bbeta_hno\(", "beta_hsp("), (r"\bbeta_hno\(", "beta_nor("), (r"\bbeta_hap\(", "beta_app("), (r"\bbeta_hap\(", "beta_cbv("),
+    (r"\blhs_mut\b", "rhs_mut"), (r"\brhs_mut\b", "lhs_mut"), (r"\blhs_ref\b", "rhs_ref"), (r"\brhs_ref\b", "lhs_ref"),
+    (r"\blhs\(\)", "rhs()"), (r"\brhs\(\)", "lhs()"),
+    (r"\bis_ok\(\)", "is_err()"), (r"\bis_err\(\)", "is_ok()"), (r"\bis_some\(\)", "is_none()"), (r"\bis_none\(\)", "is_some()"),
+    (r"\.min\(", ".max("), (r"\.max\(", ".min("),
+    (r"\bis_alphabetic\b", "is_alphanumeric"), (r"\bis_alphanumeric\b", "is_alphabetic"), (r"\bis_whitespace\b", "is_alphabetic"),
+    (r"\badded_depth\b", "own_depth"), (r"\bcontext_precedence == 3", "context_precedence == 2"), (r"\b26\b", "25"), (r"\b26\b", "27"),
+    (r"\b16\b", "10"), (r"\bpush\(", "insert(0, "), (r"\bpop\(\)", "first().cloned()"), (r"\.rev\(\)", ""),
+    (r"\bbreak\b", "continue"), (r"\bcontinue\b", "break"), (r"\bstack\.len\(\)", "(stack.len() + 1)"), (r"\*pos \+= 1", "*pos += 0"),
+    (r"\bInvalidExpression\b", "EmptyExpression"), (r"\bEmptyExpression\b", "InvalidExpression"),
+    (r"\bNotAbs\b", "NotApp"), (r"\bNotApp\b", "NotVar"), (r"\bNotVar\b", "NotAbs"),
+    (r"\bi \+ 1\b", "i"), (r"\bi - 1\b", "i"), (r"\bVar\(1\)", "Var(2)"), (r"\bVar\(2\)", "Var(1)"), (r"\bVar\(3\)", "Var(2)"),
+]
+DELETE_STMT = re.compile(r"^\s*(self\.|\*|[a-z_]+\.)[^=]*\)\s*;\s*$|^\s*\*?[a-z_.]+ (\+|-)= .*;\s*$")
 
 
 def code_lines(path):
@@ -85,7 +106,9 @@ def mutants_of(rel):
         if '"' in code or "->" in code and re.search(r"fn\s", code):
             if re.search(r"fn\s", code):
                 continue
-        for pat, rep in MUTATIONS:
+        if OPS is MUTATIONS_EXTRA and DELETE_STMT.match(code):
+            res.append({"file": rel, "line": i + 1, "before": l.strip(), "after": "(statement deleted)", "_new": ""})
+        for pat, rep in OPS:
             for m in re.finditer(pat, code):
                 if '"' in code[:m.start()] and code[:m.start()].count('"') % 2 == 1:
                     continue
@@ -197,6 +220,7 @@ def run_mutant(w, m, with_tests):
 
 
 def main():
+    global OPS
     args = sys.argv[1:]
     files = list(FILE_PROPS)
     jobs, limit, outp, with_tests = 6, None, os.path.join(VERIF, "mutation", "report.json"), False
@@ -210,9 +234,13 @@ def main():
             limit = int(args.pop(0))
         elif a == "--out":
             outp = args.pop(0)
+        elif a == "--ops":
+            OPS = MUTATIONS_EXTRA if args.pop(0) == "extra" else MUTATIONS
         elif a == "--with-tests":
             with_tests = True
     rc, st = sh("git -C /repo status --porcelain")
+    if OPS is None:
+        OPS = MUTATIONS
     muts = []
     for f in files:
         muts += mutants_of(f)
